@@ -154,6 +154,22 @@ def sig_k8s_cutoff_splits_escape(c, i, m, k):
     return bad
 
 
+def sig_insane_nodepool(c, i, m, k):
+    """only the insane-json getNode index panic: the child died in insane-json.(*decoder).getNode
+    (crash:insane-nodepool), or every failing Do of a c13.act case panicked there"""
+    if c[0] in ("c13.pipe", "c13.pipeout"):
+        return i == ["crash:insane-nodepool"]
+    if c[0] != "c13.act": return False
+    pairs, st = c13_pairs(i)
+    if st != "st:ok": return False
+    bad = False
+    for res, status in pairs:
+        if status == "ok" or status.startswith("skip:"): continue
+        if res != "-" or not status.startswith("panic:insane-nodepool@"): return False
+        bad = True
+    return bad
+
+
 def c13_nontrivial(c, i):
     if c[0] in ("c13.pipe", "c13.pipeout"):
         return bool(i) and i[0].startswith("in=") and i[0] != "in=0"
@@ -291,7 +307,8 @@ CFG = {
     "nontrivial": c13_nontrivial,
     "classify": c13_classify,
     "facts": [("holding-plugins-get-timeouts", fact_holding_plugins), ("five-action-results", fact_five_results)],
-    "signatures": {"c13_lenient_nested_json": sig_lenient_nested_json, "c13_k8s_cutoff_splits_escape": sig_k8s_cutoff_splits_escape},
+    "signatures": {"c13_lenient_nested_json": sig_lenient_nested_json, "c13_k8s_cutoff_splits_escape": sig_k8s_cutoff_splits_escape,
+                   "c13_insane_nodepool": sig_insane_nodepool},
     "rule": "per plugin: the systematic configuration list (every documented option) x every value of the adversarial value list at the configured fields (chunks of 14 events; a rotating third of the list in quick) "
             "+ root shapes/raw texts + random configurations x random sequences (quick 150x6, thorough 1200x10 per plugin) + 20/120 real-pipeline runs per plugin (c13.pipe, every fourth with the stdout output plugin); cores: exhaustive strings over {a,b} up to length 4/6 x every filter/mode/cutset/group order, "
             "all strings over {\\,u,x,0,d,8} up to length 5/6 for the utf8 scanner, random chains; distinct = distinct case line; non-trivial = at least one event was really processed (cores: a value was produced)",
